@@ -149,22 +149,20 @@ Proof.
     rewrite H1, H2. cbn. rewrite IH by exact Ht. rewrite <- !app_assoc. reflexivity.
 Qed.
 
-(* whatever the walk collected (also when it aborted) comes from present files with the listed hash *)
-Lemma walk_items_sound : forall cf p pkey v chain depth es items children,
-  forall l, (walk cf p pkey v chain depth es items children = WAbort l \/
-             exists c, walk cf p pkey v chain depth es items children = WDone l c) ->
+(* what a completed walk collected comes from present files with the listed hash *)
+Lemma walk_items_sound : forall cf p pkey v chain depth es items children l c,
+  walk cf p pkey v chain depth es items children = WDone l c ->
   forall it, In it l -> In it items \/
      exists e, In e es /\ e_present e = true /\ e_hash_ok e = true /\ In it (entry_items cf p pkey v e).
 Proof.
-  induction es as [|e t IH]; intros items children l H it Hin; cbn in H.
-  - destruct H as [H|[c H]]; [discriminate|]. inversion H. subst. left. exact Hin.
-  - destruct (negb (e_present e) || negb (e_hash_ok e)) eqn:Hb.
-    + destruct H as [H|[c H]]; [|discriminate]. inversion H. subst. left. exact Hin.
-    + apply orb_false_iff in Hb. destruct Hb as [H1 H2]. apply negb_false_iff in H1, H2.
-      destruct (IH _ _ _ H it Hin) as [Hi|[e' [He' Hr]]].
-      * apply in_app_or in Hi. destruct Hi as [Hi|Hi]; [left; exact Hi|].
-        right. exists e. repeat split; [left; reflexivity | assumption | assumption | exact Hi].
-      * right. exists e'. split; [right; exact He' | exact Hr].
+  induction es as [|e t IH]; intros items children l c H it Hin; cbn in H.
+  - inversion H. subst. left. exact Hin.
+  - destruct (negb (e_present e) || negb (e_hash_ok e)) eqn:Hb; [discriminate|].
+    apply orb_false_iff in Hb. destruct Hb as [H1 H2]. apply negb_false_iff in H1, H2.
+    destruct (IH _ _ _ _ H it Hin) as [Hi|[e' [He' Hr]]].
+    + apply in_app_or in Hi. destruct Hi as [Hi|Hi]; [left; exact Hi|].
+      right. exists e. repeat split; [left; reflexivity | assumption | assumption | exact Hi].
+    + right. exists e'. split; [right; exact He' | exact Hr].
 Qed.
 
 Lemma all_items_In : forall cf p pkey v es it,
@@ -188,20 +186,19 @@ Proof. intros l e H H1 H2. apply filter_In. split; [exact H | rewrite H1, H2; re
 
 (* --- soundness of one point --- *)
 
-Lemma process_stored_sound : forall cf w p chain depth leaked items children upd,
-  process_stored cf w p chain depth leaked = PAccepted items children upd ->
+Lemma process_stored_sound : forall cf w p chain depth items children upd,
+  process_stored cf w p chain depth = PAccepted items children upd ->
   upd = None /\
-  (forall it, In it items -> In it leaked \/
+  (forall it, In it items ->
      exists v es e, Usable cf w p v es /\ In e es /\ In it (entry_items cf p (pkey_of w p) v e)) /\
   (forall c, In c children ->
      exists v es e, Usable cf w p v es /\ In e es /\ In c (entry_children cf p (pkey_of w p) v chain depth e)).
 Proof.
-  intros cf w p chain depth leaked items children upd H. unfold process_stored in H.
+  intros cf w p chain depth items children upd H. unfold process_stored in H.
   destruct (w_stored w (c_subject p)) as [s|] eqn:Es; [|discriminate].
   destruct (is_ok (validate_stored_manifest cf p (w_pkey w (c_subject p)) (s_version s))) eqn:Hv; [|discriminate].
   inversion H. subst. split; [reflexivity|]. split.
-  - intros it Hin. apply in_app_or in Hin. destruct Hin as [Hl|Hs]; [left; exact Hl|].
-    right. apply all_items_In in Hs. destruct Hs as [e [He Hi]].
+  - intros it Hs. apply all_items_In in Hs. destruct Hs as [e [He Hi]].
     exists (s_version s), (s_entries s), e. split; [apply U_stored; assumption | split; assumption].
   - intros c Hin. apply all_children_In in Hin. destruct Hin as [e [He Hi]].
     exists (s_version s), (s_entries s), e. split; [apply U_stored; assumption | split; assumption].
@@ -215,11 +212,10 @@ Lemma process_point_sound : forall cf w p chain depth items children upd,
      exists v es e, Usable cf w p v es /\ In e es /\ In c (entry_children cf p (pkey_of w p) v chain depth e)).
 Proof.
   intros cf w p chain depth items children upd H. unfold process_point in H.
-  assert (Hnil : forall r, process_stored cf w p chain depth [] = PAccepted items children r ->
+  assert (Hnil : forall r, process_stored cf w p chain depth = PAccepted items children r ->
       (forall it, In it items -> exists v es e, Usable cf w p v es /\ In e es /\ In it (entry_items cf p (pkey_of w p) v e)) /\
       (forall c, In c children -> exists v es e, Usable cf w p v es /\ In e es /\ In c (entry_children cf p (pkey_of w p) v chain depth e))).
-  { intros r Hr. destruct (process_stored_sound _ _ _ _ _ _ _ _ _ Hr) as [_ [Hi Hc]]. split; [|exact Hc].
-    intros it Hin. destruct (Hi it Hin) as [[]|Hx]. exact Hx. }
+  { intros r Hr. destruct (process_stored_sound _ _ _ _ _ _ _ _ Hr) as [_ Hic]. exact Hic. }
   destruct (w_collected w (c_subject p)) as [v|] eqn:Ec; [|eapply Hnil; exact H].
   destruct (negb (m_present v)) eqn:Hp; [eapply Hnil; exact H|]. apply negb_false_iff in Hp.
   destruct (same v (w_stored w (c_subject p))) eqn:Hs; [eapply Hnil; exact H|].
@@ -227,22 +223,18 @@ Proof.
   apply negb_false_iff in Hv.
   destruct (negb (is_newer v (w_stored w (c_subject p)))) eqn:Hn; [eapply Hnil; exact H|].
   assert (HU : Usable cf w p v (filter (fun e => e_present e && e_hash_ok e) (listed v))) by (apply U_collected; assumption).
-  destruct (walk cf p (w_pkey w (c_subject p)) v chain depth (perm (c_subject p) (listed v)) [] []) as [i c|leaked] eqn:Hw.
-  - inversion H. subst. split.
-    + intros it Hin.
-      destruct (walk_items_sound _ _ _ _ _ _ _ _ _ _ (or_intror (ex_intro _ children Hw)) it Hin) as [[]|[e [He [H1 [H2 Hi]]]]].
-      exists v, (filter (fun e => e_present e && e_hash_ok e) (listed v)), e.
-      split; [exact HU|]. split; [|exact Hi]. apply in_usable_filter; try assumption. apply perm_in in He. exact He.
-    + intros c Hin. destruct (walk_done _ _ _ _ _ _ _ _ _ _ _ Hw) as [_ [Hc Hf]]. subst. cbn in Hin.
-      apply all_children_In in Hin. destruct Hin as [e [He Hi]].
-      rewrite forallb_forall in Hf. specialize (Hf e He). apply andb_true_iff in Hf. destruct Hf as [H1 H2].
-      exists v, (filter (fun e => e_present e && e_hash_ok e) (listed v)), e.
-      split; [exact HU|]. split; [|exact Hi]. apply in_usable_filter; try assumption. apply perm_in in He. exact He.
-  - destruct (process_stored_sound _ _ _ _ _ _ _ _ _ H) as [_ [Hi Hc]]. split; [|exact Hc].
-    intros it Hin. destruct (Hi it Hin) as [Hl|Hx]; [|exact Hx].
-    destruct (walk_items_sound _ _ _ _ _ _ _ _ _ _ (or_introl Hw) it Hl) as [[]|[e [He [H1 [H2 Hie]]]]].
+  destruct (walk cf p (w_pkey w (c_subject p)) v chain depth (perm (c_subject p) (listed v)) [] []) as [i c|] eqn:Hw;
+    [|eapply Hnil; exact H].
+  inversion H. subst. split.
+  - intros it Hin.
+    destruct (walk_items_sound _ _ _ _ _ _ _ _ _ _ _ Hw it Hin) as [[]|[e [He [H1 [H2 Hi]]]]].
     exists v, (filter (fun e => e_present e && e_hash_ok e) (listed v)), e.
-    split; [exact HU|]. split; [|exact Hie]. apply in_usable_filter; try assumption. apply perm_in in He. exact He.
+    split; [exact HU|]. split; [|exact Hi]. apply in_usable_filter; try assumption. apply perm_in in He. exact He.
+  - intros c Hin. destruct (walk_done _ _ _ _ _ _ _ _ _ _ _ Hw) as [_ [Hc Hf]]. subst. cbn in Hin.
+    apply all_children_In in Hin. destruct Hin as [e [He Hi]].
+    rewrite forallb_forall in Hf. specialize (Hf e He). apply andb_true_iff in Hf. destruct Hf as [H1 H2].
+    exists v, (filter (fun e => e_present e && e_hash_ok e) (listed v)), e.
+    split; [exact HU|]. split; [|exact Hi]. apply in_usable_filter; try assumption. apply perm_in in He. exact He.
 Qed.
 
 (* --- soundness of the recursion --- *)
@@ -314,13 +306,13 @@ Proof.
     eexists _, _, _. split; [reflexivity|]. split.
     + intros e it He Hi. apply all_items_In. exists e. split; [apply perm_in; exact He | exact Hi].
     + intros e c He Hi. apply all_children_In. exists e. split; [apply perm_in; exact He | exact Hi].
-  - assert (Hfall : forall leaked, exists items children upd,
-        process_stored cf w p chain depth leaked = PAccepted items children upd /\
+  - assert (Hfall : exists items children upd,
+        process_stored cf w p chain depth = PAccepted items children upd /\
         (forall e it, In e (s_entries s) -> In it (entry_items cf p (pkey_of w p) (s_version s) e) -> In it items) /\
         (forall e c, In e (s_entries s) -> In c (entry_children cf p (pkey_of w p) (s_version s) chain depth e) -> In c children)).
-    { intro leaked. unfold process_stored. rewrite Hst. unfold pkey_of in Hv. rewrite Hv.
+    { unfold process_stored. rewrite Hst. unfold pkey_of in Hv. rewrite Hv.
       eexists _, _, _. split; [reflexivity|]. split.
-      - intros e it He Hi. apply in_or_app. right. apply all_items_In. exists e. split; assumption.
+      - intros e it He Hi. apply all_items_In. exists e. split; assumption.
       - intros e c He Hi. apply all_children_In. exists e. split; assumption. }
     unfold process_point.
     destruct (w_collected w (c_subject p)) as [v|] eqn:Ec; [|apply Hfall].
@@ -329,7 +321,7 @@ Proof.
     destruct (negb (is_ok (validate_collected_manifest cf p (w_pkey w (c_subject p)) v))) eqn:Hvc; [apply Hfall|].
     apply negb_false_iff in Hvc.
     destruct (negb (is_newer v (w_stored w (c_subject p)))) eqn:Hn; [apply Hfall|]. apply negb_false_iff in Hn.
-    destruct (walk cf p (w_pkey w (c_subject p)) v chain depth (perm (c_subject p) (listed v)) [] []) as [i c|leaked] eqn:Hw;
+    destruct (walk cf p (w_pkey w (c_subject p)) v chain depth (perm (c_subject p) (listed v)) [] []) as [i c|] eqn:Hw;
       [|apply Hfall].
     exfalso. apply (Hno v). destruct (walk_done _ _ _ _ _ _ _ _ _ _ _ Hw) as [_ [_ Hf]].
     unfold ChosenCollected, complete. repeat split; try assumption. eapply forallb_perm_inv. exact Hf.
@@ -457,14 +449,14 @@ Lemma process_point_update_wf : forall cf w p chain depth items children s,
   process_point cf perm w p chain depth = PAccepted items children (Some s) -> stored_wf s.
 Proof.
   intros cf w p chain depth items children s H. unfold process_point in H.
-  assert (Hnil : forall l, process_stored cf w p chain depth l = PAccepted items children (Some s) -> stored_wf s).
-  { intros l Hl. destruct (process_stored_sound _ _ _ _ _ _ _ _ _ Hl) as [Hn _]. discriminate. }
+  assert (Hnil : process_stored cf w p chain depth = PAccepted items children (Some s) -> stored_wf s).
+  { intros Hl. destruct (process_stored_sound _ _ _ _ _ _ _ _ Hl) as [Hn _]. discriminate. }
   destruct (w_collected w (c_subject p)) as [v|]; [|eapply Hnil; exact H].
   destruct (negb (m_present v)); [eapply Hnil; exact H|].
   destruct (same v (w_stored w (c_subject p))); [eapply Hnil; exact H|].
   destruct (negb (is_ok (validate_collected_manifest cf p (w_pkey w (c_subject p)) v))); [eapply Hnil; exact H|].
   destruct (negb (is_newer v (w_stored w (c_subject p)))); [eapply Hnil; exact H|].
-  destruct (walk cf p (w_pkey w (c_subject p)) v chain depth (perm (c_subject p) (listed v)) [] []) as [i c|leaked] eqn:Hw;
+  destruct (walk cf p (w_pkey w (c_subject p)) v chain depth (perm (c_subject p) (listed v)) [] []) as [i c|] eqn:Hw;
     [|eapply Hnil; exact H].
   inversion H. subst. intros e He. cbn in *.
   destruct (walk_done _ _ _ _ _ _ _ _ _ _ _ Hw) as [_ [_ Hf]].
